@@ -1,5 +1,9 @@
 //! vx_misc: see /verif/harness/AGENTS-GUIDE.md; one module per property, dispatched on the property id.
 
+mod c22;
+mod c23;
+mod c36;
+
 use vcore::{machinery_error, Ctx};
 
 fn main() {
@@ -7,6 +11,9 @@ fn main() {
     vcore::quiet_panics();
     #[allow(clippy::match_single_binding)]
     let out: vcore::Outcome = match ctx.id.as_str() {
+        "C22" => c22::run(&ctx),
+        "C23" => c23::run(&ctx),
+        "C36" => c36::run(&ctx),
         other => machinery_error(&format!("vx_misc does not implement {other}")),
     };
     #[allow(unreachable_code)]
